@@ -30,6 +30,26 @@ def near (m v : F64) (scaleMag : F64) : Bool :=
   F64.same m v || (m.isFinite && v.isFinite &&
     Dy.le (Dy.abs (Dy.sub m.toDy v.toDy)) (let s := Dy.abs scaleMag.toDy; ⟨s.m, s.e - 50⟩))
 
+/-- the `int` values of a height query (`heightInts`, and `rawvalInts` for the stencil of the located cell when a cache
+    window is set) are in the range of `int` (theorem `accepted_int_arithmetic`; evaluated again on every query) -/
+def heightIntsOK (f : File) (cubic : Bool) (s : St (List F64)) (lat lon : F64) : Bool :=
+  let la := MathF.latFix lat
+  let lo := MathF.angNormalize lon
+  if la.isNaN || lo.isNaN then true else
+  intsOK (heightInts f.w f.h (fl (lo * rlonresF f)) (fl (F64.neg la * rlatresF f))) &&
+  (match locF f lat lon with
+   | some (ix, iy, _, _) =>
+     !s.cache || (if cubic then stencilCubic else stencilBilinear).all fun d =>
+       intsOK (rawvalInts f.w f.h s.xoff s.yoff s.xsize s.ysize (ix + d.1) (iy + d.2))
+   | none => true)
+
+/-- the `int` values of a `CacheArea` call that sets the window `(xo, yo, xs, ys)` -/
+def cacheIntsOK (f : File) (cubic : Bool) (so we no ea : F64) (xo yo xs ys : Int) : Bool :=
+  let q := cacheFloors f so we no ea
+  intsOK (cacheAreaInts f.w f.h cubic q.1 q.2.1 q.2.2.1 q.2.2.2) &&
+  (List.range ys.toNat).all (fun j => intsOK (fillInts f.w f.h xo yo xs (yo + (j : Int)))) &&
+  intsOK (getterInts f.w xo yo xs ys cubic)
+
 /-- cache flag and extent reported by the implementation after a cache operation: `c:W:E:N:S` -/
 def checkExtent (f : File) (cubic : Bool) (s : St (List F64)) (parts : List String) : Option String :=
   match parts with
@@ -63,6 +83,7 @@ partial def walk (f : File) (cubic : Bool) (E : Env F64 (List F64)) (s : St (Lis
               | none => true
               | some (ix, iy, _, _) => 0 ≤ ix && ix < f.w && 0 ≤ iy && iy ≤ f.h - 2
             if !locOK then (some s!"cell location outside the raster for lat={showF lat} lon={showF lon}", bits)
+            else if !heightIntsOK f cubic s lat lon then (some s!"an int expression of Geoid::height / rawval leaves the range of int at lat={showF lat} lon={showF lon}", bits)
             else if near m v mag then walk f cubic E s' mag (bits.1 + (if F64.same m v then 1 else 0), bits.2 + 1) ops rs
             else (some s!"Geoid height at ({showF lat},{showF lon}): impl={showF v} model={showF m} spec={showF (heightSpec E lat lon)}", bits)
           | none => (some s!"height query at ({showF lat},{showF lon}) threw {r}", bits))
@@ -98,6 +119,7 @@ partial def walk (f : File) (cubic : Bool) (E : Env F64 (List F64)) (s : St (Lis
             | .set xo yo xs ys =>
               -- window facts (theorem `cacheWindow_ok`), checked again on every call
               if !(0 ≤ xo && xo < f.w && 0 < xs && xs ≤ f.w && -1 ≤ yo && yo + ys ≤ f.h + 1 && 0 < ys) then (some s!"CacheArea window out of range: xoff={xo} xsize={xs} yoff={yo} ysize={ys}", bits)
+              else if !cacheIntsOK f cubic so we no ea xo yo xs ys then (some "an int expression of Geoid::CacheArea leaves the range of int", bits)
               else after (apiStep f cubic s (.cacheArea so we no ea)).1)
        | _, _, _, _, _ => (some "parse A", bits))
     | ["L"] =>
